@@ -255,10 +255,16 @@ DOMNode* DOMAttrImpl::rename(const XMLCh* namespaceURI, const XMLCh* name)
     DOMElement* el = getOwnerElement();
     DOMDocumentImpl* doc = (DOMDocumentImpl*)fParent.fOwnerDocument;
 
+    // create the AttrNS that is going to replace this node first: if the new
+    // name is rejected, this attribute must still be on its element
+    DOMAttr* newAttr = 0;
+    if (namespaceURI && *namespaceURI)
+        newAttr = doc->createAttributeNS(namespaceURI, name);
+
     if (el)
         el->removeAttributeNode(this);
 
-    if (!namespaceURI || !*namespaceURI) {
+    if (!newAttr) {
         fName = doc->getPooledString(name);
 
         if (el)
@@ -270,9 +276,6 @@ DOMNode* DOMAttrImpl::rename(const XMLCh* namespaceURI, const XMLCh* name)
         return this;
     }
     else {
-
-        // create a new AttrNS
-        DOMAttr* newAttr = doc->createAttributeNS(namespaceURI, name);
 
         // transfer the userData
         doc->transferUserData(castToNodeImpl(this), castToNodeImpl(newAttr));
